@@ -212,6 +212,9 @@ func TestRetryModel(t *testing.T) {
 			}
 		}
 		retries := calls - 1
+		if c.Hook && len(hooks) > retries {
+			t.Fatalf("violation: OnRetryHook reported retries %v but only %d retries were made (a retry that never ran was reported) (%s)", hooks, retries, c)
+		}
 		failedRetries := retries
 		if last.err == nil && retries > 0 {
 			failedRetries--
